@@ -205,6 +205,69 @@ where
                     }
                 }
             }
+            // ---- prover and verifier absorb the same messages: the positions the stand-alone prover channel
+            // (`DefaultProverChannel`, the public entry point for FRI outside a STARK) draws after its commit phase are
+            // the ones a verifier draws from its coin after `FriVerifier::new` absorbed the same commitments, for every
+            // nonce of a small alphabet; and they change when the channel is handed other evaluations (another last
+            // commitment) — the prover's positions depend on every message it sent.
+            {
+                let nq = 5usize.min(cfg.n - 1);
+                let run_prover_q = |ev: Vec<E>, nonce: u64, nq: usize| -> Result<(Vec<usize>, fri::FriProof, Vec<H::Digest>), pan::PanicRec> {
+                    let opts = opts.clone();
+                    pan::catch(move || {
+                        let mut channel = DefaultProverChannel::<E, H, DefaultRandomCoin<H>>::new(cfg.n, nq);
+                        let mut prover = FriProver::<E::BaseField, E, _, H>::new(opts);
+                        prover.build_layers(&mut channel, ev);
+                        let pos = channel.draw_query_positions(nonce);
+                        let mut dedup = pos.clone();
+                        dedup.sort();
+                        dedup.dedup();
+                        let proof = prover.build_proof(&dedup);
+                        (pos, proof, channel.layer_commitments().to_vec())
+                    })
+                };
+                for nonce in [0u64, 1, 0xffff_ffff, u64::MAX] {
+                    n_cases += 1;
+                    let (ppos, proof, coms) = match run_prover_q(evals.clone(), nonce, nq) {
+                        Ok(x) => x,
+                        Err(p) => {
+                            out.violation(format!("{nm}: the stand-alone FRI prover channel panics ({})", p.class()), json!({"config": format!("{:?}", cfg), "nonce": nonce}));
+                            continue;
+                        },
+                    };
+                    let opts2 = opts.clone();
+                    let vpos = pan::catch(move || -> Result<Vec<usize>, String> {
+                        let mut vch = DefaultVerifierChannel::<E, H>::new(proof, coms, cfg.n, cfg.k).map_err(|e| format!("channel: {e}"))?;
+                        let mut coin = <DefaultRandomCoin<H> as RandomCoin>::new(&[]);
+                        let _v = FriVerifier::<E, _, H, DefaultRandomCoin<H>>::new(&mut vch, &mut coin, opts2, cfg.n / cfg.blowup - 1).map_err(|e| format!("{:?}", e))?;
+                        coin.draw_integers(nq, cfg.n, nonce).map_err(|e| format!("{:?}", e))
+                    });
+                    match vpos {
+                        Ok(Ok(v)) if v == ppos => out.class("prover channel and verifier coin draw the same positions"),
+                        Ok(Ok(v)) => out.violation(
+                            format!("{nm}: the stand-alone FRI prover channel and the verifier's coin draw different query positions from the same transcript"),
+                            json!({"config": format!("{:?}", cfg), "nonce": nonce, "prover": ppos, "verifier": v, "layers": cfg.num_layers()}),
+                        ),
+                        Ok(Err(e)) => out.violation(format!("{nm}: HARNESS: verifier refuses the honest transcript of the prover channel ({e})"), json!({"config": format!("{:?}", cfg)})),
+                        Err(p) => out.violation(format!("{nm}: FRI verifier construction panics ({})", p.class()), json!({"config": format!("{:?}", cfg)})),
+                    }
+                    // other evaluations (one value changed: every commitment changes) must lead to other positions
+                    if nonce == 0 {
+                        let mut ev2 = evals.clone();
+                        ev2[cfg.n - 1] = ev2[cfg.n - 1] + E::ONE;
+                        n_cases += 1;
+                        if let (Ok((p1, _, c1)), Ok((p2, _, c2))) = (run_prover_q(evals.clone(), nonce, 16usize.min(cfg.n - 1)), run_prover_q(ev2, nonce, 16usize.min(cfg.n - 1))) {
+                            let differ = c1.iter().zip(c2.iter()).any(|(a, b)| a.as_bytes() != b.as_bytes());
+                            if differ && p1 == p2 {
+                                out.violation(
+                                    format!("{nm}: the positions drawn by the stand-alone FRI prover channel do not depend on the commitments it sent"),
+                                    json!({"config": format!("{:?}", cfg), "positions": p1, "commitments": c1.len()}),
+                                );
+                            }
+                        }
+                    }
+                }
+            }
             out.evals(n_cases);
             out.nontrivial_n(honest_ok.max(1));
             out.class(&format!("FRI schedule with {} layer(s), remainder of {} coefficient(s)", cfg.num_layers(), (cfg.n / cfg.k.pow(cfg.num_layers() as u32)) / cfg.blowup));
